@@ -24,7 +24,7 @@ LEVEL_TEXT = ("All cold-start runs with 1 <= steps <= 9 (thorough 22), 1 <= peri
 LEVEL_NOTE = "Exhaustive only within the stated bounds (evidence sets exhaustive: true); durations are whole numbers of steps as the property's quantifier (number of steps) states."
 RULE = ("case = (steps, period, layout, particle variables, direction); inside a case every numrec value is run and compared with the unsplit run. "
         "Non-trivial: steps % period != 0 or the records do not fill the last file; distinct by the tuple.")
-MANDATORY = ["steps_not_multiple_of_period", "last_file_partial", "last_file_full", "single_record_run", "sparse", "dense", "reversed", "forward", "split_vs_unsplit_records", "output_times_with_empty_state"]
+MANDATORY = ["steps_not_multiple_of_period", "last_file_partial", "last_file_full", "single_record_run", "sparse", "dense", "reversed", "forward", "split_vs_unsplit_records", "output_times_with_empty_state", "prototype_with_number"]
 EXHAUSTIVE = {"quick": True, "thorough": True}
 ASSUMPTIONS = ["cold start only (warm start is C08)"]
 TIMEOUT = {"quick": 900, "thorough": 3400}
@@ -41,11 +41,25 @@ def gen_cases(tier: str, seed: int) -> list[dict[str, Any]]:
     return cases
 
 
-def expected_names(numrec: int, nrec: int) -> list[str]:
+# output file name prototypes: plain, and ending in _<digits> (the numbering then starts there and keeps the width), with base
+# names that themselves end in digits or underscores
+PROTOS = ["out.nc", "drift_2020_000.nc", "exp10_010.nc", "a_b__01.nc", "run_0031.nc", "o_9.nc", "v2.nc", "t_1_1.nc"]
+
+
+def expected_names(numrec: int, nrec: int, proto: str = "out.nc") -> list[str]:
+    """Documented numbering: cake.nc -> cake_000.nc, cake_001.nc, ...; cake_04.nc -> cake_04.nc, cake_05.nc, ..."""
     if not numrec:
-        return ["out.nc"]
+        return [proto]
     nfiles = max(1, -(-nrec // numrec))
-    return [f"out_{k:03d}.nc" for k in range(nfiles)]
+    stem = proto[:-3]
+    k = len(stem)
+    while k > 0 and stem[k - 1].isdigit():
+        k -= 1
+    if 0 < k < len(stem) and stem[k - 1] == "_":
+        base, first, width = stem[:k - 1], int(stem[k:]), len(stem) - k
+    else:
+        base, first, width = stem, 0, 3
+    return [base + "_" + str(first + n).rjust(width, "0") + ".nc" for n in range(nfiles)]
 
 
 def run_case(case: dict[str, Any], wd: Path) -> dict[str, Any]:
@@ -67,7 +81,9 @@ def run_case(case: dict[str, Any], wd: Path) -> dict[str, Any]:
         sit["output_times_with_empty_state"] = 1
     else:
         rels, kills_ = [[0, 2]] + ([[late, 1]] if late > 0 else []), ({max(0, ns - 2): [0]} if ns > 2 else {})
-    base = dict(salt=ns * 100 + P, dt=dt, nsteps=ns, period=P, layout=case["layout"], reversed=rev, reference=None,
+    proto = PROTOS[(ns * 7 + P * 3 + int(case["pvars"]) + 2 * int(rev)) % len(PROTOS)] if (ns + P) % 2 else "out.nc"
+    sit["prototype_with_number"] = int(proto not in ("out.nc", "v2.nc"))
+    base = dict(salt=ns * 100 + P, dt=dt, filename=proto, nsteps=ns, period=P, layout=case["layout"], reversed=rev, reference=None,
                 releases=rels, kills=kills_, pvars=case["pvars"],
                 lonlat=False, enc="f8", speed=0.07, continuous=0)
     unsplit = None
@@ -88,9 +104,9 @@ def run_case(case: dict[str, Any], wd: Path) -> dict[str, Any]:
         files = out["files"]
         if out["still_open"]:
             V.append(C.viol(f"{out['still_open']} output dataset(s) still open after the run", **tag))
-        names = [f.path.name for f in files]
-        if names != expected_names(numrec, nrec):
-            V.append(C.viol(f"output files {names}, documented numbering gives {expected_names(numrec, nrec)}", **tag))
+        names = sorted(q.name for q in sub.glob("*.nc"))  # everything the run left in its directory (the forcing lives in world/)
+        if names != sorted(expected_names(numrec, nrec, proto)) or [f.path.name for f in files] != expected_names(numrec, nrec, proto):
+            V.append(C.viol(f"output files {names} for the prototype {proto!r} and numrec={numrec}, documented numbering gives {expected_names(numrec, nrec, proto)}", **tag))
         allrecs = [r for f in files for r in f.records]
         times = [r.time for r in allrecs]
         if times != want_times:
